@@ -132,6 +132,28 @@ def cases(tier, rng):
         c.expect = ("agree", [("sub", b"a"), ("sub", b"b")], [1])
         out.append(c)
         n += 1
+    # a join ABANDONED while the new peer is being told the subscriptions (connect() dropped by a timeout; the handshake task
+    # dropped with its listener): the peer must not stay behind half-told — the connection goes away (both halves
+    # released) and later changes are not routed to it
+    for cut in (0, 1, 3, 4):
+        for nsubs in (1, 2):
+            sc = wg.Script()
+            sc.sock(1, "SUB")
+            sc.attach(1, 1, "PUB", b"early")
+            hist = [("sub", t) for t in TOP[:nsubs]]
+            for item in hist:
+                add_op(sc, item)
+            f = sc.fut()
+            # (one subscription only when the write is cut inside it: with two, WHICH one is cut is the HashSet's order)
+            sc.add(f"credit 2 {HS + (cut if nsubs == 1 else 0)}", f"attach {f} 1 2",
+                   f"reveal 2 {wg.hx(wg.G + zmtp.ready('PUB', b'late'))}", f"poll {f}", f"drop {f}", "halves 2", "credit 2 inf",
+                   "wire 2")
+            add_op(sc, ("sub", b"ab"))
+            sc.add("wire 1", "wire 2", "halves 2")
+            c = sc.case(f"abandoned-join#{n}", ["abandoned-join"])
+            c.expect = ("abandoned-join", hist + [("sub", b"ab")])
+            out.append(c)
+            n += 1
     # a CROWD of peers around one whose connection fails: whatever the hash order of the peer table, the failing peer
     # almost surely has a successor in the walk — every healthy peer must still be told every change
     for kind in ("BrokenPipe", "ConnectionReset"):
@@ -195,6 +217,16 @@ def oracle(case, lines):
         return "panic/abort (a failing peer must not take the caller down)"
     if not case.expect:
         return None
+    if case.expect[0] == "abandoned-join":
+        res = list(zip(case.ops, lines[1:]))
+        hv = [l for op, l in res if op == "halves 2"]
+        w2 = [l for op, l in res if op == "wire 2"][-1]
+        if hv[0] != "halves r=1 w=1" or hv[-1] != "halves r=1 w=1":
+            return (f"a join abandoned while the peer was being told the subscriptions left the connection open: {hv} — the peer "
+                    "stays behind, told only part of the set")
+        if w2 != "wire .":
+            return f"a later subscription change was routed to the connection of an abandoned join: {w2[:60]}"
+        case = type(case)(case.name, case.engine, case.ops, case.tags, ("agree", case.expect[1], [1]))
     _, hist, peers = case.expect
     cur = []
     for k, t in hist:
